@@ -291,7 +291,7 @@ def fn_props(unit, fn):
 
 
 def record_verus(pid, unit, f, cname, txt, r):
-    d = os.path.join(VERIF, "replays", pid)
+    d = os.path.join(os.environ.get("VERIF_REPLAY_DIR", os.path.join(VERIF, "replays")), pid)
     os.makedirs(d, exist_ok=True)
     path = os.path.join(d, f"verus_{unit}__{f['name']}__{cname.replace('#', '')}.json")
     doc = {"property": pid, "obligation": f"verus:{unit}::{f['name']}/{cname}", "verifier": "verus 0.2026.09.13 / z3",
